@@ -124,8 +124,10 @@ def _run(case: dict[str, Any]) -> dict[str, Any]:
     stream: list[tuple[str, Any]] = []
     ctx.add_observer(EventType.START_EVALUATION, lambda e: stream.append(("start", None)))
     ctx.add_observer(EventType.FINISHED_EVALUATION, lambda e: stream.append(("finished", e.data.get("transformed_results", e.data["results"]))))
+    pairs: list[tuple[Any, Any]] = []
+    ctx.add_observer(EventType.FINISHED_EVALUATION, lambda e: pairs.append((e.data["results"], e.data.get("transformed_results"))))
     plan = Plan(ctx)
-    out: dict[str, Any] = {"ev": ev, "stream": stream}
+    out: dict[str, Any] = {"ev": ev, "stream": stream, "pairs": pairs}
     if case.get("step", "optimizer") == "optimizer":
         step = plan.add_step("optimizer")
         kwargs: dict[str, Any] = {"config": cfg, "transforms": transforms}
@@ -245,9 +247,23 @@ def consistent_with_stream(case: dict[str, Any], out: dict[str, Any]) -> None:
               f"an evaluation was aborted (filter/estimator) but the exit code is {out['code'].name}", case)
 
 
+def check_delivery_pairs(case: dict[str, Any], out: dict[str, Any]) -> None:
+    """Every result of an evaluation is delivered, in the user's domain and - with transforms - in the optimizer's, item by item."""
+    for results, transformed in out.get("pairs") or []:
+        if transformed is None:
+            continue
+        check(len(results) == len(transformed), "results-misaligned",
+              f"an evaluation delivered {len(transformed)} results in the optimizer domain but {len(results)} in the user domain", case)
+        for item, titem in zip(results, transformed):
+            same_kind = type(item) is type(titem) and (not isinstance(item, FunctionResults) or (item.functions is None) == (titem.functions is None))
+            check(same_kind and bool(np.array_equal(np.asarray(item.realizations.failed_realizations), np.asarray(titem.realizations.failed_realizations))),
+                  "results-misaligned", "the user-domain and optimizer-domain results of one evaluation do not correspond item by item", case)
+
+
 def run_fault_case(case: dict[str, Any]) -> dict[str, Any]:
     out = run(case)
     check_documented(case, out)
+    check_delivery_pairs(case, out)
     ev = out["ev"]
     exact = not case.get("filter") and case.get("estimator", "mean") == "mean" and case.get("step", "optimizer") == "optimizer"
     consistent_with_stream(case, out)
@@ -272,6 +288,7 @@ def run_fault_case(case: dict[str, Any]) -> dict[str, Any]:
 def run_evaluator_step_case(case: dict[str, Any]) -> dict[str, Any]:
     out = run(case)
     check_documented(case, out)
+    check_delivery_pairs(case, out)
     consistent_with_stream(case, out)
     r_n = case["R"]
     rmin = min(case["rmin"], r_n)
